@@ -116,6 +116,13 @@ func (n *Node) Reports() []string {
 			out = append(out, fmt.Sprintf("concentrated-liquidity full-range liquidity of pool %d = %s (err=%v)", pl.GetId(), l, err != nil))
 		}
 	}
+	// the link between a position and the lock it was created under (kept until the position is touched after the lock
+	// has matured): a read the withdraw / add / transfer paths depend on
+	for id := uint64(1); id < n.App.ConcentratedLiquidityKeeper.GetNextPositionId(ctx); id++ {
+		if lk, err := n.App.ConcentratedLiquidityKeeper.GetLockIdFromPositionId(ctx, id); err == nil {
+			out = append(out, fmt.Sprintf("concentrated-liquidity position %d is linked to lock %d", id, lk))
+		}
+	}
 	ag, err := n.App.PoolManagerKeeper.GetAllTakerFeesShareAgreements(ctx)
 	out = append(out, fmt.Sprintf("poolmanager taker-fee share agreements = %v (err=%v)", ag, err != nil))
 	al, err := n.App.PoolManagerKeeper.GetAllRegisteredAlloyedPools(ctx)
